@@ -93,6 +93,21 @@ def gen_cases(ctx, n):
             for st in prob["streams"]:
                 st["heat_flow"] = round(st["heat_flow"] * k + ctx.rng.randrange(1, 10) * 1e-5, 5)
             m = dict(m, shapes=m["shapes"] + ["small_duties"])
+        elif ctx.rng.random() < 0.1:
+            # a needle at the temperature extreme: 0.4 kW to heat above (or to cool below) one large stream -- the last interval carries
+            # less than 1e-5 of the zone's target and must still be assigned to a utility
+            big = float(ctx.rng.choice([32768, 49152, 65536]))
+            t0 = float(ctx.rng.choice([40, 60, 100]))
+            if ctx.rng.random() < 0.5:
+                ss = [dict(zone="N", name="BigC", t_supply=t0, t_target=t0 + 100.0, heat_flow=big, dt_cont=5.0, htc=1.0),
+                      dict(zone="N", name="SmallH", t_supply=t0 + 90.0, t_target=t0 + 20.0, heat_flow=1024.0, dt_cont=5.0, htc=1.0),
+                      dict(zone="N", name="NeedleC", t_supply=t0 + 110.0, t_target=t0 + 120.0, heat_flow=0.4, dt_cont=5.0, htc=1.0)]
+            else:
+                ss = [dict(zone="N", name="BigH", t_supply=t0 + 100.0, t_target=t0, heat_flow=big, dt_cont=5.0, htc=1.0),
+                      dict(zone="N", name="SmallC", t_supply=t0 + 10.0, t_target=t0 + 80.0, heat_flow=1024.0, dt_cont=5.0, htc=1.0),
+                      dict(zone="N", name="NeedleH", t_supply=t0 - 10.0, t_target=t0 - 20.0, heat_flow=0.4, dt_cont=5.0, htc=1.0)]
+            prob = dict(streams=ss, utilities=prob["utilities"] if ctx.rng.random() < 0.5 else [])
+            m = dict(zones=1, shapes=["needle_at_extreme"], regime=m["regime"])
         probs.append((prob, m))
     return probs
 
